@@ -92,7 +92,7 @@ func main() {
 		}
 		cfg := runCfg{programs: 9, values: 2, truncCap: 80, corruptPer: 3, skOps: 1500}
 		if *tier == "thorough" {
-			cfg = runCfg{programs: 40, values: 8, truncCap: 400, corruptPer: 17, skOps: 20000, probes: true}
+			cfg = runCfg{programs: 24, values: 5, truncCap: 200, corruptPer: 8, skOps: 10000, probes: true}
 		}
 		if *nprog > 0 {
 			cfg.programs = *nprog
@@ -351,7 +351,13 @@ func run(repo, dir string, seed uint64, cfg runCfg, keep bool) int {
 			report(i, key, what, exp)
 		}
 	}
-	sort.SliceStable(panics, func(a, b int) bool { return len(ls.lines[panics[a]]) < len(ls.lines[panics[b]]) })
+	sort.SliceStable(panics, func(a, b int) bool {
+		aa, ab := strings.HasPrefix(ls.checks[panics[a]].note, "aim_"), strings.HasPrefix(ls.checks[panics[b]].note, "aim_")
+		if aa != ab {
+			return aa // the fixed, seed-independent inputs first
+		}
+		return len(ls.lines[panics[a]]) < len(ls.lines[panics[b]])
+	})
 	for k, i := range panics {
 		if k >= 60 {
 			break
@@ -562,7 +568,11 @@ func genOps(r *vl.Rng, cfg runCfg, u *batch.UnitInfo, sidx int, key string, v *v
 	}
 	out.Count(fmt.Sprintf("corrupt.typebytes.%s", bucket(len(pos))))
 	for _, p := range pos {
-		for _, nb := range replacements(r, withUnknown[p.off], cfg.corruptPer) {
+		per := cfg.corruptPer
+		if u.Tag == "aim" && cfg.probes {
+			per = len(replAll) // thorough tier: every replacement value for every type byte of the aimed unit
+		}
+		for _, nb := range replacements(r, withUnknown[p.off], per) {
 			in := append([]byte{}, withUnknown...)
 			in[p.off] = nb
 			addRead(ls, check{class: kCorrupt, unit: u, sidx: sidx, value: v, note: p.kind}, key, in)
